@@ -306,25 +306,29 @@ void CodePrinter::bvisit(const NaN &x)
 void CodePrinter::bvisit(const Equality &x)
 {
     std::ostringstream s;
-    s << apply(x.get_arg1()) << " == " << apply(x.get_arg2());
+    s << parenthesizeLE(x.get_arg1(), PrecedenceEnum::Relational) << " == "
+      << parenthesizeLE(x.get_arg2(), PrecedenceEnum::Relational);
     str_ = s.str();
 }
 void CodePrinter::bvisit(const Unequality &x)
 {
     std::ostringstream s;
-    s << apply(x.get_arg1()) << " != " << apply(x.get_arg2());
+    s << parenthesizeLE(x.get_arg1(), PrecedenceEnum::Relational) << " != "
+      << parenthesizeLE(x.get_arg2(), PrecedenceEnum::Relational);
     str_ = s.str();
 }
 void CodePrinter::bvisit(const LessThan &x)
 {
     std::ostringstream s;
-    s << apply(x.get_arg1()) << " <= " << apply(x.get_arg2());
+    s << parenthesizeLE(x.get_arg1(), PrecedenceEnum::Relational) << " <= "
+      << parenthesizeLE(x.get_arg2(), PrecedenceEnum::Relational);
     str_ = s.str();
 }
 void CodePrinter::bvisit(const StrictLessThan &x)
 {
     std::ostringstream s;
-    s << apply(x.get_arg1()) << " < " << apply(x.get_arg2());
+    s << parenthesizeLE(x.get_arg1(), PrecedenceEnum::Relational) << " < "
+      << parenthesizeLE(x.get_arg2(), PrecedenceEnum::Relational);
     str_ = s.str();
 }
 void CodePrinter::bvisit(const Sign &x)
